@@ -12,6 +12,9 @@ float-converted cosines the correspondence feeds in); the statements that mentio
 import GT.Lemmas.Coxeter
 import Mathlib.Tactic.NormNum
 import Mathlib.Tactic.FinCases
+import Mathlib.Analysis.SpecialFunctions.Trigonometric.Inverse
+import Mathlib.Analysis.SpecialFunctions.Sqrt
+import Mathlib.Tactic.Positivity
 
 open Matrix Finset
 
@@ -226,6 +229,22 @@ theorem hypRep_reflection (B W Winv J : Matrix (Fin n) (Fin n) R) (hd : ∀ i, B
     rw [det_mul, det_mul, refl_det _ i hC, mul_comm (Winv.det), mul_assoc, ← det_mul, hW, det_one]
     ring
 
+/-- an involution is its own inverse, so its dual is its transpose (what the driver executes for
+`canonical_representation(diagonalize=True)`) -/
+theorem dualMat_of_involution (M : Matrix (Fin n) (Fin n) R) (h : M * M = 1) : dualMat M = Mᵀ := by
+  unfold dualMat
+  apply Matrix.inv_eq_left_inv
+  rw [← transpose_mul, h, transpose_one]
+
+/-- `cartan_matrix(parameters)` keeps the diagonal `2` and every entry whose label (in either order)
+is non-negative; so `tits_vinberg_rep` satisfies `refl_sq` and the braid theorems at every finite label -/
+theorem cartanMatrix_spec [DecidableEq R] (B : Matrix (Fin n) (Fin n) R) (M : Matrix (Fin n) (Fin n) ℤ)
+    (P : Matrix (Fin n) (Fin n) R) (i j : Fin n) (hij : 0 ≤ M i j) (hji : 0 ≤ M j i) :
+    cartanMatrix B M P i j = 2 * B i j := by
+  unfold cartanMatrix
+  rw [if_neg (by omega), if_neg (by omega)]
+  simp
+
 end ring
 
 /-! ## every finite label, over ℝ -/
@@ -289,6 +308,93 @@ theorem geometric_representation_real {n : ℕ} (M : Matrix (Fin n) (Fin n) ℤ)
       rw [this, Real.cos_pi_div_two]
     rw [this]; simp
 
+
+/-- **exact order** over ℝ: under the hypotheses of `braid_all` and `i ≠ j`, no smaller positive
+power of `sᵢsⱼ` is the identity -/
+theorem order_exact {n : ℕ} (C : Matrix (Fin n) (Fin n) ℝ) (i j : Fin n) (hij : i ≠ j)
+    (hi : C i i = 2) (hj : C j j = 2) (m : ℕ) (hm : 2 ≤ m)
+    (hc : C i j * C j i = 4 * Real.cos (Real.pi / m) ^ 2) (k : ℕ) (hk0 : 0 < k) (hkm : k < m) :
+    (refl C i * refl C j) ^ k ≠ 1 := order_exact' C i j hij hi hj m hm hc k hk0 hkm
+
+/-- … and the same for the canonical (dual) representation: `sᵢsⱼ` has order **exactly** `m` there -/
+theorem canon_order_exact {n : ℕ} (B : Matrix (Fin n) (Fin n) ℝ) (i j : Fin n) (hij : i ≠ j)
+    (hi : B i i = 1) (hj : B j j = 1) (m : ℕ) (hm : 2 ≤ m)
+    (hc : (2 * B i j) * (2 * B j i) = 4 * Real.cos (Real.pi / m) ^ 2)
+    (h2 : m = 2 → B i j = 0 ∧ B j i = 0) :
+    (canonRep B i * canonRep B j) ^ m = 1 ∧
+      ∀ k, 0 < k → k < m → (canonRep B i * canonRep B j) ^ k ≠ 1 := by
+  have hCi : ((2 : ℝ) • B) i i = 2 := by simp [hi]
+  have hCj : ((2 : ℝ) • B) j j = 2 := by simp [hj]
+  have hCc : ((2 : ℝ) • B) i j * ((2 : ℝ) • B) j i = 4 * Real.cos (Real.pi / m) ^ 2 := by
+    simpa [Matrix.smul_apply] using hc
+  have hpow : (geomRep B i * geomRep B j) ^ m = 1 :=
+    braid_all _ i j hCi hCj m hm hCc (fun h => by
+      obtain ⟨a, b⟩ := h2 h; simp [Matrix.smul_apply, a, b])
+  have hdual : ∀ k, (canonRep B i * canonRep B j) ^ k = dualMat ((geomRep B i * geomRep B j) ^ k) := by
+    intro k; unfold canonRep; rw [← dualMat_mul, dual_pow]
+  refine ⟨by rw [hdual, hpow, dualMat_one], fun k hk0 hkm hk => ?_⟩
+  rw [hdual] at hk
+  apply order_exact _ i j hij hCi hCj m hm hCc k hk0 hkm
+  -- `((P^k)ᵀ)⁻¹ = 1` with `P^k` invertible gives `P^k = 1`
+  set X := (refl ((2 : ℝ) • B) i * refl ((2 : ℝ) • B) j) ^ k with hX
+  have hdet : IsUnit X.det := by
+    rw [hX, det_pow, det_mul, refl_det _ i hCi, refl_det _ j hCj]; simp
+  have hdetT : IsUnit Xᵀ.det := by rw [det_transpose]; exact hdet
+  have h1 : Xᵀ = 1 := by
+    have := Matrix.mul_nonsing_inv Xᵀ hdetT
+    unfold dualMat geomRep at hk
+    rw [← hX] at hk
+    rw [hk, mul_one] at this
+    exact this
+  have : X = Xᵀᵀ := (transpose_transpose X).symm
+  rw [this, h1, transpose_one]
+
+/-- **triangle angles.**  For the cosine form `B = form3 a b c` of a triangle group, let `ω_k` be the
+vertex fixed by `sᵢ` and `sⱼ` (hence by the rotation `sᵢsⱼ`), and `u, w` the directions at `ω_k`
+towards the other two vertices.  Then `B(u,w) = -B_ij · B(u,u)`, `B(w,w) = B(u,u) = det(B)⁴(1-B_ij²)`
+and `B(ω_k,ω_k) = det(B)(1-B_ij²)`: the interior angle has cosine `-B_ij = cos(π/m)`, and the vertex
+is ideal (lightlike) exactly when `B_ij² = 1`, i.e. for an infinite label. -/
+theorem triangle_angles {R : Type*} [CommRing R] (a b c : R) (i j k : Fin 3) (hij : i ≠ j) (hjk : j ≠ k)
+    (hik : i ≠ k) :
+    let B := form3 a b c
+    let u := tangent B (vertex B k) (vertex B j)
+    let w := tangent B (vertex B k) (vertex B i)
+    geomRep B i *ᵥ vertex B k = vertex B k ∧ geomRep B j *ᵥ vertex B k = vertex B k ∧
+      bil B u w = -B i j * bil B u u ∧ bil B w w = bil B u u ∧
+      bil B u u = B.det ^ 4 * (1 - B i j ^ 2) ∧ bil B (vertex B k) (vertex B k) = B.det * (1 - B i j ^ 2) := by
+  intro B u w
+  obtain ⟨t1, t2, t3, t4⟩ := triangle3 a b c B rfl i j k hij hjk hik
+  exact ⟨vertex_fixed B i k hik, vertex_fixed B j k hjk, t1, t2, t3, t4⟩
+
+/-- over ℝ, at a finite vertex (`B_ij² < 1`, non-degenerate form) the cosine of the interior angle,
+computed from the two directions, is `-B_ij`; with `B_ij = -cos(π/m)` the angle is `π/m` -/
+theorem triangle_angle_real (a b c : ℝ) (i j k : Fin 3) (hij : i ≠ j) (hjk : j ≠ k) (hik : i ≠ k)
+    (hdet : (form3 a b c).det ≠ 0) (hfin : (form3 a b c) i j ^ 2 < 1) :
+    let B := form3 a b c
+    let u := tangent B (vertex B k) (vertex B j)
+    let w := tangent B (vertex B k) (vertex B i)
+    bil B u w / Real.sqrt (bil B u u * bil B w w) = -B i j ∧
+      ∀ m : ℕ, 2 ≤ m → B i j = -Real.cos (Real.pi / m) →
+        Real.arccos (bil B u w / Real.sqrt (bil B u u * bil B w w)) = Real.pi / m := by
+  intro B u w
+  obtain ⟨_, _, t1, t2, t3, _⟩ := triangle_angles a b c i j k hij hjk hik
+  have hpos : 0 < bil B u u := by
+    rw [t3]
+    have : 0 < B.det ^ 4 := by positivity
+    have h1 : 0 < 1 - B i j ^ 2 := by linarith
+    positivity
+  have hcos : bil B u w / Real.sqrt (bil B u u * bil B w w) = -B i j := by
+    rw [t2, Real.sqrt_mul_self hpos.le, t1]
+    exact mul_div_cancel_right₀ _ hpos.ne'
+  refine ⟨hcos, fun m hm hB => ?_⟩
+  rw [hcos, hB, neg_neg]
+  apply Real.arccos_cos
+  · positivity
+  · have hm0 : (0 : ℝ) < m := by exact_mod_cast (by omega : 0 < m)
+    rw [div_le_iff₀ hm0]
+    have : (1 : ℝ) ≤ m := by exact_mod_cast (by omega : 1 ≤ m)
+    nlinarith [Real.pi_pos]
+
 /-! ## non-vacuity: concrete instances of the hypotheses -/
 
 /-- the (2,3,∞) form over ℚ: symmetric, unit diagonal, the generators are involutions and
@@ -313,5 +419,10 @@ example : ∃ t : ℝ, t ^ 2 + t - 1 = 0 := by
 for `B = 1` (label 2, rank 2) `W = Winv = 1`, `J = 1` satisfy the `hypRep` hypotheses -/
 example : (1 : Matrix (Fin 2) (Fin 2) ℚ) * 1 = 1 ∧ (1 : Matrix (Fin 2) (Fin 2) ℚ)ᵀ * 1 * 1 = 1 := by
   simp
+
+/-- `triangle_angle_real` is not vacuous: the (2,3,7)-like numbers `a = 0, b = -1/2, c = -9/10` give a
+non-degenerate form with a finite vertex -/
+example : (form3 (0 : ℝ) (-1/2) (-9/10)).det ≠ 0 ∧ (form3 (0 : ℝ) (-1/2) (-9/10)) 0 1 ^ 2 < 1 := by
+  rw [det3]; constructor <;> norm_num [form3]
 
 end GT.C08
